@@ -71,8 +71,6 @@ func probeOf(id string, cases ...Case) pbt.ProbeDef {
 					m = m[:i]
 				}
 				out = append(out, c.Query+" "+c.Vars+" => "+m)
-			} else if v.Msg != "" {
-				out = append(out, "probe hit something else: "+v.Msg)
 			}
 		}
 		return strings.Join(out, " | ")
